@@ -111,13 +111,17 @@ class GetObservationModel(Contract):
         return S
 
     def havoc(self, I, S):
+        # a fresh Observation built by the REAL constructor (so fields a refactoring adds exist), with arbitrary content
         sig = S.sig
         L = sig.layout()
         obscls = I.repo.cls("nasim.envs.observation.Observation")
-        O = I.ctx.fresh("O_new", A2)
-        ocell = NpCell(O, (ival(sig.N) + 1, L.W), fresh=True, label="obs.tensor")
-        return Obj(obscls, {"obs_shape": (mk(ival(sig.N) + 1, "int"), mk(L.W, "int")),
-                            "aux_row": mk(ival(sig.N), "int"), "tensor": NpArr(ocell)}, fresh=True, label="obs")
+        obs = I.instantiate(obscls, [(mk(ival(sig.N), "int"), mk(L.W, "int"))], {})
+        t = obs.fields.get("tensor")
+        if isinstance(t, NpArr):
+            t.cell.content = I.ctx.fresh("O_new", A2)
+            t.cell.label = "obs.tensor"
+        obs.label = "obs"
+        return obs
 
 
 @contract
